@@ -672,6 +672,10 @@ func (fc *FuncCtx) contractCall(fr *Frame, st *State, com *ssa.CallCommon, key s
 			nv := c.Ctor(oldv.Sort, c.Fresh("elems_"+pn, oldv.Sort.Fields[0].Sort), c.FieldOf(oldv, 1))
 			finals[pn] = SV{T: nv, GoT: tys[idx]}
 			writeBacks = append(writeBacks, func() { v.store(st, org, nv) })
+		case v.modifiesHeapKey(m) != "":
+			hk := v.modifiesHeapKey(m)
+			st.globals[hk] = mkFresh("heap_"+sanitize(cshort), v.globalSort(hk))
+			touched = append(touched, hk)
 		default:
 			unsupported("modifies clause %s of %s not understood", m, key)
 		}
@@ -953,6 +957,36 @@ func matchCallPattern(pat, cshort string, ord int) bool {
 
 // ------------------------------------------------------------ frame obligations of the verified function
 
+// modifiesHeapKey: for a clause `modifies heap(T)` (every object of Go type T may be written: the objects are reachable
+// only through interface values / slices, so they cannot be named one by one) the heap key of T, else "".
+func (v *Verifier) modifiesHeapKey(m *Expr) string {
+	if m.Kind != "call" || m.Name != "heap" || len(m.Args) != 1 {
+		return ""
+	}
+	tn := typeExprName(m.Args[0])
+	if m.Args[0].Kind == "str" {
+		tn = m.Args[0].Name
+	}
+	if tn == "" {
+		panic(specError{fmt.Sprintf("modifies %s: heap(T) needs a Go type name", m)})
+	}
+	_, gt, err := v.resolveType(tn)
+	if err != nil || gt == nil {
+		panic(specError{fmt.Sprintf("modifies %s: cannot resolve Go type %q", m, tn)})
+	}
+	return v.heapKeyFor(gt)
+}
+
+// modifiesWholeHeap: the verified function declares `modifies heap(T)` for the heap `key`.
+func (fc *FuncCtx) modifiesWholeHeap(key string) bool {
+	for _, m := range fc.spec.Modifies {
+		if hk := fc.v.modifiesHeapKey(m); hk != "" && hk == key {
+			return true
+		}
+	}
+	return false
+}
+
 // allowedTargets evaluates the modifies clauses of the verified function in its entry state.
 func (fc *FuncCtx) allowedTargets() (map[string][]*Term, map[string]bool) {
 	v := fc.v
@@ -980,6 +1014,7 @@ func (fc *FuncCtx) allowedTargets() (map[string][]*Term, map[string]bool) {
 			hk := v.heapKeyFor(el)
 			allowedRefs[hk] = append(allowedRefs[hk], pv.T)
 		case m.Kind == "call" && m.Name == "elems":
+		case v.modifiesHeapKey(m) != "":
 		default:
 			panic(specError{fmt.Sprintf("modifies clause %s not understood", m)})
 		}
@@ -991,6 +1026,9 @@ func (fc *FuncCtx) allowedTargets() (map[string][]*Term, map[string]bool) {
 func (fc *FuncCtx) heapFrameTerm(st *State, key string) *Term {
 	v := fc.v
 	c := v.c
+	if fc.modifiesWholeHeap(key) {
+		return c.Bool(true)
+	}
 	allowed, _ := fc.allowedTargets()
 	alloc0 := v.getGlobal(fc.entry, "$alloc")
 	r := c.BoundVar("r", SInt)
@@ -1035,6 +1073,7 @@ func (fc *FuncCtx) frameObligations(final *State) {
 			hk := v.heapKeyFor(el)
 			allowedRefs[hk] = append(allowedRefs[hk], pv.T)
 		case m.Kind == "call" && m.Name == "elems":
+		case v.modifiesHeapKey(m) != "":
 		default:
 			panic(specError{fmt.Sprintf("modifies clause %s not understood", m)})
 		}
@@ -1059,6 +1098,9 @@ func (fc *FuncCtx) frameObligations(final *State) {
 			}
 			v.addObligation(&Obligation{Name: fc.short + "#frame." + k, Kind: "frame", Func: fc.key, Assume: final.pc, Goal: c.Eq(fin, ini), Expect: "unsat",
 				Note: "world variable not listed in modifies must be unchanged"})
+			continue
+		}
+		if fc.modifiesWholeHeap(k) {
 			continue
 		}
 		r := c.Const(fc.short+".$anyref", SInt)
